@@ -342,9 +342,13 @@ func makeVaryHash(vary map[string]string) uint64 {
 	keys := make([]string, 0, len(vary))
 	keys = slices.AppendSeq(keys, maps.Keys(vary))
 	slices.Sort(keys)
+	// Names and values are NUL-terminated so that different maps cannot produce the same byte stream.
+	sep := []byte{0}
 	for _, k := range keys {
 		_, _ = h.Write([]byte(k))
+		_, _ = h.Write(sep)
 		_, _ = h.Write([]byte(vary[k]))
+		_, _ = h.Write(sep)
 	}
 	return h.Sum64()
 }
